@@ -18,7 +18,8 @@ record whose owner equals a question name byte-exactly and matches is present; a
 RESPONSE flag, unicast bit; None iff nothing matches). Universe U0 (exhaustive): 6 owner names that collide under label concatenation x {A, TXT, SRV} x {authoritative, \
 cached}; all stores of <= 3 (quick) / <= 4 (thorough) records x all queries of <= 2 questions over 6 names x {A,SRV,TXT,ANY} x {IN,ANY}. Universe U1 (random): histories \
 of add-authoritative/add-cached/remove/clear over colliding label alphabets, 9 record types, classes IN/CH, QTYPE incl. ANY/MAILB, each followed by queries. \
-Live family (sampled): 6 / 60 real SimpleMdnsResponder instances (sync and tokio alternately) hold generated records under names private to the process; 30 / 60 queries each go to the mDNS \
+Live family (sampled): 8 / 80 real services - sync and tokio SimpleMdnsResponder holding generated records, and sync and tokio ServiceDiscovery answering for their own instance (registered = PTR + InstanceInformation::into_records, \
+TXT strings compared as a set) - under names private to the process; 30 / 60 queries each go to the mDNS \
 group through real sockets; the reply datagram (unicast replies on the sending socket, multicast replies on a witness socket joined to the group) is parsed and judged by the same reply model, \
 including how it was delivered; an expected reply that does not come after 3 transmissions while the marker query is answered is a violation, otherwise inconclusive. \
 non-trivial = (store, query) with a non-empty store and at least one question; distinct = hash of (store, query)",
@@ -395,6 +396,23 @@ pub fn u1_case(ctx: &mut Ctx, idx: u64) {
 /// The same judgement on what the real responders put on the wire: a sync and a tokio SimpleMdnsResponder hold generated
 /// records (under names private to this process), queries go to the mDNS group through real sockets, unicast replies
 /// come back to the sending socket and multicast replies are picked up by a witness socket on the group.
+/// TXT strings as a set (an instance's attributes come from a hash map: their order differs from call to call)
+fn norm_txt(r: &mut RecSem) {
+    if r.rtype == 16 {
+        if let Rd::Fields(f) = &mut r.rd {
+            for x in f.iter_mut() {
+                if let F::List(l) = x {
+                    l.sort();
+                    // a TXT value without strings goes over the wire as one empty string
+                    if l.is_empty() {
+                        l.push(Vec::new());
+                    }
+                }
+            }
+        }
+    }
+}
+
 fn live(ctx: &mut Ctx) {
     use simple_mdns::{async_discovery, sync_discovery};
     use std::net::{SocketAddr, UdpSocket};
@@ -412,7 +430,7 @@ fn live(ctx: &mut Ctx) {
     }
     let pid = std::process::id();
     let rt = tokio::runtime::Builder::new_multi_thread().worker_threads(2).enable_all().build().unwrap();
-    let rounds = ctx.tier.pick(6u64, 60u64);
+    let rounds = ctx.tier.pick(8u64, 80u64);
     let mut qid: u16 = 0x3000;
     // one exchange: send (up to `sends` times), return the first datagram carrying our id with the response bit
     let exchange = |bytes: &[u8], id: u16, sends: u32, wait_each: Duration| -> Option<(Vec<u8>, bool)> {
@@ -442,34 +460,85 @@ fn live(ctx: &mut Ctx) {
             break;
         }
         let tokio_side = round % 2 == 1;
-        let who = if tokio_side { "tokio SimpleMdnsResponder" } else { "sync SimpleMdnsResponder" };
+        // rounds 0,1 of every four: responders holding arbitrary records; rounds 2,3: a ServiceDiscovery answering for
+        // its own instance (what it registers is the PTR record plus the public InstanceInformation::into_records)
+        let discovery_side = round % 4 >= 2;
+        let who = match (discovery_side, tokio_side) {
+            (false, false) => "sync SimpleMdnsResponder",
+            (false, true) => "tokio SimpleMdnsResponder",
+            (true, false) => "sync ServiceDiscovery (reply path)",
+            (true, true) => "tokio ServiceDiscovery (reply path)",
+        };
         let mut r = ctx.rng("live", round);
         let suffix = format!("v{}r{}", pid, round).into_bytes();
-        let names: Vec<NameM> = (0..r.usize(3, 6)).map(|_| { let mut n = u1_name(&mut r); n.push(suffix.clone()); n }).collect();
+        let mut names: Vec<NameM> = (0..r.usize(3, 6)).map(|_| { let mut n = u1_name(&mut r); n.push(suffix.clone()); n }).collect();
         let mut members: Vec<RecSem> = Vec::new();
-        for _ in 0..r.usize(4, 10) {
-            let rec = u1_record(&mut r, &names);
-            if !members.iter().any(|m| ident_of(m) == ident_of(&rec)) {
-                members.push(rec);
+        let mut marker = RecSem { name: vec![b"marker".to_vec(), suffix.clone()], rtype: 1, class: 1, flush: false, ttl: 10, rd: Rd::Fields(vec![F::Int(0x7F000001)]) };
+        let mut marker_qtype = 1u16;
+        let mut disc_info: Option<(simple_mdns::InstanceInformation, String)> = None;
+        if discovery_side {
+            let service_s = format!("_s{}._tcp.{}", round, String::from_utf8_lossy(&suffix));
+            let mut info = simple_mdns::InstanceInformation::new("inst".into());
+            for k in 0..r.below(3) {
+                info = info.with_ip_address(if r.bool() { std::net::IpAddr::V4(std::net::Ipv4Addr::new(10, 0, k as u8, r.below(4) as u8)) } else { std::net::IpAddr::V6(std::net::Ipv6Addr::new(0xfe80, 0, 0, 0, 0, 0, k as u16, r.below(4) as u16)) });
             }
+            for _ in 0..r.below(3) {
+                info = info.with_port(*r.pick(&[80u16, 443, 8080, 0, 65535]));
+            }
+            for k in 0..r.below(3) {
+                info = info.with_attribute(format!("k{}", k), if r.bool() { Some(format!("v{}", r.below(9))) } else { None });
+            }
+            let service: NameM = service_s.split('.').map(|l| l.as_bytes().to_vec()).collect();
+            let mut full = service.clone();
+            full.insert(0, b"inst".to_vec());
+            let full_lib = bridge::lib_name(&full);
+            members.push(RecSem { name: service.clone(), rtype: 12, class: 1, flush: false, ttl: 10, rd: Rd::Fields(vec![F::Name(full.clone())]) });
+            match monitor::guard(|| info.clone().into_records(&full_lib, 10).map(|v| v.iter().map(bridge::obs_record).collect::<Vec<_>>()).map_err(|e| format!("{:?}", e))) {
+                Ok(Ok(v)) => {
+                    for mut m in v {
+                        norm_txt(&mut m);
+                        if !members.iter().any(|x| ident_of(x) == ident_of(&m)) {
+                            members.push(m);
+                        }
+                    }
+                }
+                _ => continue,
+            }
+            names = vec![service.clone(), full.clone(), service[1..].to_vec()];
+            marker = members[0].clone();
+            marker_qtype = 12;
+            disc_info = Some((info, service_s));
+        } else {
+            for _ in 0..r.usize(4, 10) {
+                let rec = u1_record(&mut r, &names);
+                if !members.iter().any(|m| ident_of(m) == ident_of(&rec)) {
+                    members.push(rec);
+                }
+            }
+            members.push(marker.clone());
         }
-        let marker = RecSem { name: vec![b"marker".to_vec(), suffix.clone()], rtype: 1, class: 1, flush: false, ttl: 10, rd: Rd::Fields(vec![F::Int(0x7F000001)]) };
-        members.push(marker.clone());
         // the responder (kept alive for the round; its thread / task stays behind afterwards, holding names nobody asks for)
         let started = monitor::guard(|| {
-            if tokio_side {
+            if let Some((info, service_s)) = &disc_info {
+                if tokio_side {
+                    let _g = rt.enter();
+                    (None, None, None, async_discovery::ServiceDiscovery::new(info.clone(), service_s, 10).ok())
+                } else {
+                    (None, None, sync_discovery::ServiceDiscovery::new(info.clone(), service_s, 10).ok(), None)
+                }
+            } else if tokio_side {
                 let _g = rt.enter();
                 let mut a = async_discovery::SimpleMdnsResponder::new(10);
                 for m in &members {
                     rt.block_on(a.add_resource(bridge::lib_record(m).unwrap().into_owned()));
                 }
-                (None, Some(a))
+                (None, Some(a), None, None)
             } else {
                 let mut s = sync_discovery::SimpleMdnsResponder::new(10);
                 for m in &members {
                     s.add_resource(bridge::lib_record(m).unwrap().into_owned());
                 }
-                (Some(s), None)
+                (Some(s), None, None, None)
             }
         });
         let _keep = match started {
@@ -480,7 +549,7 @@ fn live(ctx: &mut Ctx) {
             }
         };
         std::thread::sleep(Duration::from_millis(120));
-        let marker_q = vec![QSem { name: marker.name.clone(), qtype: 1, qclass: 1, unicast: true }];
+        let marker_q = vec![QSem { name: marker.name.clone(), qtype: marker_qtype, qclass: 1, unicast: true }];
         qid = qid.wrapping_add(1);
         let mq = query_packet(qid, &marker_q).build_bytes_vec().unwrap();
         if exchange(&mq, qid, 8, Duration::from_millis(300)).is_none() {
@@ -523,7 +592,16 @@ fn live(ctx: &mut Ctx) {
                 Some((reply, via_unicast)) => {
                     ctx.count("live_replies_received");
                     match monitor::guard(|| Packet::parse(&reply).map(|p| bridge::observe(&p)).map_err(|e| format!("{:?}", e))) {
-                        Ok(Ok(rp)) => judge(ctx, &model, &qs, qid, Some((rp, via_unicast)), &case),
+                        Ok(Ok(mut rp)) => {
+                            if discovery_side {
+                                for sec in rp.secs.iter_mut() {
+                                    for rec in sec.iter_mut() {
+                                        norm_txt(rec);
+                                    }
+                                }
+                            }
+                            judge(ctx, &model, &qs, qid, Some((rp, via_unicast)), &case)
+                        }
                         Ok(Err(e)) => ctx.violation("sound", "live-reply-unparseable", format!("the {} sent a reply that does not parse: {}", who, e), case()),
                         Err(pn) => ctx.panic_violation("parsing a live reply", &pn, case()),
                     }
